@@ -124,7 +124,14 @@ func (r *Run) opBadPut(op *Op) {
 	integrity := !r.Plan.Config.NoIntegrity
 	if mustReject == "" && integrity {
 		switch op.MD5 {
-		case "wrong":
+		case "wrong", "wrong-zero", "wrong-ones", "wrong-lastbyte":
+			mustReject = "bad digest"
+		case "wrong-ofempty":
+			if len(recv) > 0 { // (the right digest for a body of which nothing arrived)
+				mustReject = "bad digest"
+			}
+		case "wrong-zero-padbits":
+			// a strict decoder calls it malformed, a lenient one a bad digest
 			mustReject = "bad digest"
 		case "malformed", "shortlen", "empty":
 			mustReject = "malformed digest"
